@@ -225,6 +225,18 @@ func init() {
 		for i, w := range f {
 			p1[i] = showWordsDot(w)
 		}
+		// the elements belong to the caller: appending to one (as a caller adding a terminator would) must not
+		// change another, and a second conversion must not change the first one's result
+		for i := range f {
+			_ = append(f[i], 0xaa, 0xbb, 0xcc)
+		}
+		_ = bw.FromStrs([]string{"\xff\xff\xff\xff\xff\xff\xff\xff", "\xff\xff"})
+		for i, w := range f {
+			if showWordsDot(w) != p1[i] {
+				return fmt.Sprintf("RESULT-CHANGED: element %d of the FromStrs result after appending to the other elements", i)
+			}
+		}
+
 		p2 := make([]string, len(back))
 		for i, s := range back {
 			p2[i] = outBytes([]byte(s))
@@ -251,15 +263,29 @@ func init() {
 	reg("cpm", func(a []string) string {
 		sb := sigbits.New(parseStrList(a[0]))
 		outs := []string{}
+		kept := [][]int32{} // the counters of every query stay with the caller
 		for _, q := range strings.Split(a[1], ";") {
 			f := strings.Split(q, ":")
 			o := "PANIC"
+			var got []int32
 			func() {
 				defer func() { recover() }()
 				m0, cs := sb.CountPrefixes(mustI32(f[0]), mustI32(f[1]), mustI32(f[2]))
 				o = fmt.Sprintf("%d;%s", m0, showI32s(cs))
+				got = cs
 			}()
 			outs = append(outs, o)
+			kept = append(kept, got)
+		}
+		for i, cs := range kept {
+			if cs != nil && !strings.HasSuffix(outs[i], ";"+showI32s(cs)) {
+				return fmt.Sprintf("RESULT-CHANGED: the counters returned by query %d changed after later queries", i)
+			}
+		}
+		for _, cs := range kept { // ... and may be written to
+			for j := range cs {
+				cs[j] = -7
+			}
 		}
 		return strings.Join(outs, "|")
 	})
